@@ -1151,56 +1151,78 @@ private:
 	// HELPER methods
 
 	// Conversion functions
+	// integer part of the value (truncation toward zero) taken from the decoded fields:
+	// exact for any fbits, saturating when the magnitude does not fit
+	template<typename Int>
+	Int to_integer() const {
+		if (iszero()) return 0;
+		bool		     	 _sign{ false };
+		positRegime<nbits, es>    _positRegime;
+		positExponent<nbits, es>  _positExponent;
+		positFraction<fbits>      _positFraction;
+		decode(_bits, _sign, _positRegime, _positExponent, _positFraction);
+		int scale = _positRegime.scale() + _positExponent.scale();
+		if (scale < 0) return 0;
+		if (scale >= std::numeric_limits<Int>::digits) return (_sign ? std::numeric_limits<Int>::min() : std::numeric_limits<Int>::max());
+		bitblock<fbits> _fraction = _positFraction.get();
+		unsigned long long magnitude = 1; // hidden bit, followed by the top scale fraction bits
+		for (int i = 0, fpos = int(fbits) - 1; i < scale; ++i, --fpos) {
+			magnitude <<= 1;
+			if (fpos >= 0 && _fraction[unsigned(fpos)]) magnitude |= 1;
+		}
+		Int integer = Int(magnitude);
+		return (_sign ? Int(0 - integer) : integer);
+	}
 #if POSIT_THROW_ARITHMETIC_EXCEPTION
 	short to_short() const {
 		if (iszero()) return 0;
 		if (isnar()) throw posit_nar{};
-		return short(to_float());
+		return to_integer<short>();
 	}
 	int to_int() const {
 		if (iszero()) return 0;
 		if (isnar()) throw posit_nar{};
-		return int(to_double());
+		return to_integer<int>();
 	}
 	long to_long() const {
 		if (iszero()) return 0;
 		if (isnar()) throw posit_nar{};
-		return long(to_long_double());
+		return to_integer<long>();
 	}
 	long long to_long_long() const {
 		if (iszero()) return 0;
 		if (isnar()) throw posit_nar{};
-		return (long long)(to_long_double());
+		return to_integer<long long>();
 	}
 	unsigned short to_ushort() const {
 		if (iszero()) return 0;
 		if (isnar()) throw posit_nar{};
-		return (unsigned short)(to_float());
+		return to_integer<unsigned short>();
 	}
 	unsigned int to_uint() const {
 		if (iszero()) return 0;
 		if (isnar()) throw posit_nar{};
-		return (unsigned int)(to_double());
+		return to_integer<unsigned int>();
 	}
 	unsigned long to_ulong() const {
 		if (iszero()) return 0;
 		if (isnar()) throw posit_nar{};
-		return (unsigned long)(to_long_double());
+		return to_integer<unsigned long>();
 	}
 	unsigned long long to_ulong_long() const {
 		if (iszero()) return 0;
 		if (isnar()) throw posit_nar{};
-		return (unsigned long long)(to_long_double());
+		return to_integer<unsigned long long>();
 	}
 #else
-	short to_short() const                   { return short(to_float()); }
-	int to_int() const                       { return int(to_double()); }
-	long to_long() const                     { return long(to_long_double()); }
-	long long to_long_long() const           { return (long long)(to_long_double()); }
-	unsigned short to_ushort() const         { return (unsigned short)(to_float()); }
-	unsigned int to_uint() const             { return (unsigned int)(to_double()); }
-	unsigned long to_ulong() const           { return (unsigned long)(to_long_double()); }
-	unsigned long long to_ulong_long() const { return (unsigned long long)(to_long_double()); }
+	short to_short() const                   { return isnar() ? short(to_float()) : to_integer<short>(); }
+	int to_int() const                       { return isnar() ? int(to_double()) : to_integer<int>(); }
+	long to_long() const                     { return isnar() ? long(to_long_double()) : to_integer<long>(); }
+	long long to_long_long() const           { return isnar() ? (long long)(to_long_double()) : to_integer<long long>(); }
+	unsigned short to_ushort() const         { return isnar() ? (unsigned short)(to_float()) : to_integer<unsigned short>(); }
+	unsigned int to_uint() const             { return isnar() ? (unsigned int)(to_double()) : to_integer<unsigned int>(); }
+	unsigned long to_ulong() const           { return isnar() ? (unsigned long)(to_long_double()) : to_integer<unsigned long>(); }
+	unsigned long long to_ulong_long() const { return isnar() ? (unsigned long long)(to_long_double()) : to_integer<unsigned long long>(); }
 #endif
 	float to_float() const {
 		return (float)to_double();
